@@ -29,6 +29,8 @@ pub fn format_seeds() -> Vec<Seed> {
     dbcs::seeds(&mut v);
     wdts::seeds(&mut v);
     wdls::seeds(&mut v);
+    attrs::seeds(&mut v);
+    listfiles::seeds(&mut v);
     v
 }
 
@@ -2199,5 +2201,95 @@ mod wdls {
         if let Some(b) = bytes(&file(WdlVersion::Bfa, &[(5, 5)], &[(5, 5)]), WdlVersion::Bfa) {
             push(v, "wdl", "bfa-1tile-1hole", b);
         }
+    }
+}
+
+// ---------------------------------------------------------------------------------------
+// (attributes) special file, hand-encoded: version 100, flags, then CRC32[n], FILETIME[n], MD5[n],
+// patch bits ceil(n/8) in that order. Input encoding of the family: [block_count u16 LE][file data].
+
+pub mod attrs {
+    use super::{Seed, Sm, push};
+
+    pub const CRC32: u32 = 1;
+    pub const FILETIME: u32 = 2;
+    pub const MD5: u32 = 4;
+    pub const PATCH_BIT: u32 = 8;
+
+    /// exact-size well-formed (attributes) data for `n` blocks
+    pub fn file(n: usize, flags: u32, seed: u64) -> Vec<u8> {
+        let mut r = Sm(seed);
+        let mut d = vec![];
+        d.extend_from_slice(&100u32.to_le_bytes());
+        d.extend_from_slice(&flags.to_le_bytes());
+        if flags & CRC32 != 0 {
+            for _ in 0..n {
+                d.extend_from_slice(&(r.next() as u32).to_le_bytes());
+            }
+        }
+        if flags & FILETIME != 0 {
+            for _ in 0..n {
+                d.extend_from_slice(&r.next().to_le_bytes());
+            }
+        }
+        if flags & MD5 != 0 {
+            for _ in 0..n {
+                d.extend_from_slice(&r.next().to_le_bytes());
+                d.extend_from_slice(&r.next().to_le_bytes());
+            }
+        }
+        if flags & PATCH_BIT != 0 {
+            for _ in 0..n.div_ceil(8) {
+                d.push(r.next() as u8 | 1);
+            }
+        }
+        d
+    }
+
+    pub fn input(n: usize, data: &[u8]) -> Vec<u8> {
+        let mut b = (n as u16).to_le_bytes().to_vec();
+        b.extend_from_slice(data);
+        b
+    }
+
+    pub fn seeds(v: &mut Vec<Seed>) {
+        for n in [0usize, 1, 3, 7, 8, 9, 64] {
+            for flags in 0u32..16 {
+                let d = file(n, flags, 0xA77 ^ ((n as u64) << 8) ^ flags as u64);
+                push(v, "attributes", format!("n{n}-f{flags:x}"), input(n, &d));
+                // the parser deliberately accepts a patch-bit array that is one byte short
+                if flags & PATCH_BIT != 0 && n > 0 {
+                    push(v, "attributes", format!("n{n}-f{flags:x}-patchbits-1short"), input(n, &d[..d.len() - 1]));
+                }
+            }
+        }
+    }
+}
+
+// ---------------------------------------------------------------------------------------
+// (listfile) special file
+
+mod listfiles {
+    use super::{Seed, push};
+
+    pub fn seeds(v: &mut Vec<Seed>) {
+        let names = ["Interface\\Icons\\INV_Misc_QuestionMark.blp", "World\\Maps\\Azeroth\\Azeroth.wdt", "DBFilesClient\\Spell.dbc", "d0\\f0.bin", "a"];
+        let join = |sep: &str| names.iter().map(|n| format!("{n}{sep}")).collect::<String>().into_bytes();
+        push(v, "listfile", "lf", join("\n"));
+        push(v, "listfile", "crlf", join("\r\n"));
+        push(v, "listfile", "semicolon", join(";"));
+        push(v, "listfile", "semicolon-metadata-lines", names.iter().enumerate().map(|(i, n)| format!("{n};{i};0x{i:08x}\r\n")).collect::<String>().into_bytes());
+        let mut bom = vec![0xEF, 0xBB, 0xBF];
+        bom.extend(join("\r\n"));
+        push(v, "listfile", "utf8-bom", bom);
+        push(v, "listfile", "empty-lines-comments", b"\n\n; comment\n# other\n\r\n  \t \nfile1.txt\n\n\n ;x\nfile2.txt".to_vec());
+        let mut long = vec![b'x'; 20_000];
+        long.extend_from_slice(b"\nshort.txt\n");
+        push(v, "listfile", "very-long-line", long);
+        let mut bad = b"ok.txt\n".to_vec();
+        bad.extend_from_slice(&[0xFF, 0xFE, 0xC3, 0x28, 0x80, b'\n', 0xE2, 0x82, b';', 0xF0, 0x9F, b'\r', b'\n', 0xC0, 0xAF]);
+        bad.extend_from_slice(b"\nlast.txt");
+        push(v, "listfile", "non-utf8", bad);
+        push(v, "listfile", "no-trailing-newline-nul", b"a.txt\0b.txt\nc.txt".to_vec());
     }
 }
